@@ -3,6 +3,11 @@
 package main
 
 import (
+	"github.com/edutko/putty-go/putty"
+	"golang.org/x/crypto/ssh"
+	"encoding/base64"
+	"crypto/rand"
+	"crypto/ed25519"
 	"bytes"
 	"encoding/pem"
 	"fmt"
@@ -99,6 +104,47 @@ func pemBlockCounts(data []byte) (total, pgp int) {
 
 func emitInspect(name string, data []byte) { emit("inspect", dispatchArgs(name, data)...) }
 
+// emitInspectNot: the content is, by construction and by the library's verdict on the broken component, NOT a well-formed
+// instance of parser's format
+func emitInspectNot(name string, data []byte, parser string) {
+	a := dispatchArgs(name, data)
+	emit("inspect", append([]string{a[0], a[1], "X", parser}, a[2:]...)...)
+}
+
+// brokenInstances: the signature and envelope of a format around a component its library refuses
+func brokenInstances(r *rng) (out []struct {
+	parser string
+	data   []byte
+}) {
+	add := func(p string, d []byte) {
+		out = append(out, struct {
+			parser string
+			data   []byte
+		}{p, d})
+	}
+	edPub, _, _ := ed25519.GenerateKey(rand.Reader)
+	sp, _ := ssh.NewPublicKey(edPub)
+	good := sp.Marshal()
+	var blobs [][]byte
+	blobs = append(blobs, good[:len(good)-1], good[:8], sshStr([]byte("ssh-unknown")), append(sshStr([]byte("ssh-ed25519")), sshStr(make([]byte, 31))...), nil, []byte{0, 0, 0, 0})
+	flip := append([]byte{}, good...)
+	flip[6] ^= 1 // inside the type string
+	blobs = append(blobs, flip)
+	for _, b := range blobs {
+		if _, err := ssh.ParsePublicKey(b); err == nil {
+			continue
+		}
+		if _, err := putty.UnmarshalPublicKey(b, "c"); err == nil {
+			continue // the PuTTY library takes it (it is laxer than x/crypto/ssh about key lengths): not a broken instance
+		}
+		for _, v := range []int{2, 3} {
+			add("PuttyPPK", ppkText(v, "ssh-ed25519", "none", "broken blob", b, sshStr(make([]byte, 32)), nil))
+		}
+		add("SSHPublicKey", []byte("ssh-ed25519 "+base64.StdEncoding.EncodeToString(b)+" broken blob\n"))
+	}
+	return
+}
+
 func genC07(tier string, r *rng) {
 	names := []string{"authorized_keys", "known_hosts", "d/authorized_keys", "a/b/known_hosts", "authorized_keys2", "known_hosts.old",
 		"xauthorized_keys", "authorized_keys.pub", "Authorized_Keys", "key.pem", "x", "file.bin", "known_hosts/x", ".known_hosts", "id_rsa.pub", "a b", "-"}
@@ -139,6 +185,12 @@ func genC07(tier string, r *rng) {
 	for _, c := range contents {
 		for _, n := range names {
 			emitInspect(n, c.data)
+		}
+	}
+	// broken instances: right signature and envelope, one component the library refuses
+	for _, bi := range brokenInstances(r) {
+		for _, n := range []string{"k.ppk", "x", "authorized_keys", "id.pub"} {
+			emitInspectNot(n, bi.data, bi.parser)
 		}
 	}
 	// random mutations of each cell
